@@ -131,7 +131,7 @@ def e2_specs(tier):
     out.append(dict(scenario="stopping", kwargs=kw, kind="reach", K=K, pred="returned", timeout=to))
     out.append(dict(scenario="stopping", kwargs=kw, kind="safety", K=K, pred="cancel_bad", timeout=to, replay="stopping_replay"))
     out.append(dict(scenario="stopping", kwargs=kw, kind="safety", K=K, pred="late_stale", timeout=to, replay="stopping_replay"))
-    out.append(dict(scenario="stopping", kwargs=kw, kind="deadlock", K=K, pred="caller_stuck_not_capacity", timeout=to, replay="stopping_replay"))
+    out.append(dict(scenario="stopping", kwargs=kw, kind="deadlock", K=K, pred="caller_open", timeout=to, replay="stopping_replay"))
   return out
 
 
